@@ -2,9 +2,14 @@
 //
 // Drives the real authorizer.NewTierAuthorizer(fake).AuthorizeTierOperation from many goroutines
 // at once.  The fake k8s Authorizer answers each of the three checks the code makes (get-tier,
-// policy-name, tier-wildcard) with one of {allow, deny, no-opinion} x {nil, error}, after a delay
-// that enforces (statistically, never relied upon by the oracle) one of the 6 completion orders of
-// the three checks, or no delay at all.  The binary is built with -race: every DATA RACE block is
+// policy-name, tier-wildcard) with one of {allow, deny, no-opinion} x {nil, error}, after a latency
+// (none / short / longer) that enforces (statistically, never relied upon by the oracle) one of the
+// 6 completion orders of the three checks, or no delay at all.  For half of the requests the fake
+// behaves like the k8s webhook authorizer with respect to contexts: if the context it is handed is
+// cancelled before its answer is ready it gives up with (NoOpinion, ctx.Err()).  The caller's own
+// context is never cancelled during a call, so on a correct implementation this changes nothing; an
+// implementation that cancels outstanding checks whose answer it still needs is caught by the oracle,
+// which is computed from the answers the authorizer would give if left to finish.  The binary is built with -race: every DATA RACE block is
 // a violation of the "however its concurrent checks interleave" clause (reported by the runner).
 //
 // Oracle (from the property statement): the request is allowed (nil error) exactly when
@@ -75,6 +80,10 @@ type plan struct {
 	verb     string
 	answers  [3]answer
 	delay    [3]time.Duration
+	// honourCancel: like the k8s webhook authorizer, give up with (NoOpinion, ctx.Err()) when the
+	// context handed to Authorize is cancelled before the answer is ready.
+	honourCancel bool
+	cancelled    atomic.Int32 // checks that ended that way
 
 	calls    [3]atomic.Int32
 	seq      atomic.Int32
@@ -111,7 +120,21 @@ func (fakeAuthorizer) Authorize(ctx context.Context, a k8sauth.Attributes) (k8sa
 		return k8sauth.DecisionDeny, "unexpected", nil
 	}
 	p.calls[which].Add(1)
-	if d := p.delay[which]; d > 0 {
+	if p.honourCancel {
+		if d := p.delay[which]; d > 0 {
+			t := time.NewTimer(d)
+			select {
+			case <-t.C:
+			case <-ctx.Done():
+				t.Stop()
+			}
+		}
+		if err := ctx.Err(); err != nil {
+			p.cancelled.Add(1)
+			p.finished[which].CompareAndSwap(0, p.seq.Add(1))
+			return k8sauth.DecisionNoOpinion, "", err
+		}
+	} else if d := p.delay[which]; d > 0 {
 		time.Sleep(d) // scheduling perturbation only; no oracle depends on it
 	}
 	ans := p.answers[which]
@@ -147,11 +170,16 @@ func buildRequest(c *harness.Case, id int, triple int, order int) (*plan, contex
 	p := &plan{id: id}
 	p.answers = [3]answer{answerOf(triple % nAnswers), answerOf(triple / nAnswers % nAnswers), answerOf(triple / (nAnswers * nAnswers))}
 	if order < 6 {
-		// check perms[order][k] completes k-th: delays are well separated, plus jitter
+		// check perms[order][k] completes k-th: latencies none / short / longer, well separated, plus jitter
+		lat := [3]time.Duration{0, 120 * time.Microsecond, 500 * time.Microsecond}
 		for k, chk := range perms[order] {
-			p.delay[chk] = time.Duration(k)*150*time.Microsecond + time.Duration(c.R.Intn(40))*time.Microsecond
+			p.delay[chk] = lat[k]
+			if k > 0 {
+				p.delay[chk] += time.Duration(c.R.Intn(60)) * time.Microsecond
+			}
 		}
 	}
+	p.honourCancel = c.R.Intn(2) == 0
 	res := resources[c.R.Intn(len(resources))]
 	p.resource = res.name
 	if res.namespaced {
@@ -233,7 +261,10 @@ func run(c *harness.Case) {
 		go func(r *req) {
 			defer wg.Done()
 			<-start
-			r.err = ta.AuthorizeTierOperation(r.ctx, r.polNm, r.p.tier)
+			// the caller's context is cancellable but is only cancelled after the call has returned
+			ctx, cancel := context.WithCancel(r.ctx)
+			r.err = ta.AuthorizeTierOperation(ctx, r.polNm, r.p.tier)
+			cancel()
 		}(r)
 	}
 	close(start)
@@ -250,9 +281,16 @@ func run(c *harness.Case) {
 		want := p.answers[0].dec == 0 && (p.answers[1].dec == 0 || p.answers[2].dec == 0)
 		got := r.err == nil
 		detail := map[string]any{"get_tier": p.answers[0].String(), "policy_name": p.answers[1].String(),
-			"tier_wildcard": p.answers[2].String(), "delays": orderName(r.order), "verb": p.verb, "resource": p.resource,
-			"namespace": p.ns, "tier": p.tier, "name": p.name, "returned": fmt.Sprint(r.err), "expected_allowed": want}
+			"tier_wildcard": p.answers[2].String(), "delays": orderName(r.order), "authorizer_honours_ctx_cancellation": p.honourCancel,
+			"verb": p.verb, "resource": p.resource, "namespace": p.ns, "tier": p.tier, "name": p.name, "returned": fmt.Sprint(r.err), "expected_allowed": want}
 		c.Count("requests", 1)
+		if p.honourCancel {
+			c.Count("cancel_honouring_requests", 1)
+		}
+		if n := p.cancelled.Load(); n > 0 {
+			c.Count("checks_cut_short_by_cancellation", int64(n))
+			detail["checks_cut_short_by_context_cancellation"] = n
+		}
 		c.Count("authz_calls", int64(p.calls[0].Load()+p.calls[1].Load()+p.calls[2].Load()))
 		if want {
 			c.Count("expected_allowed", 1)
@@ -299,7 +337,7 @@ func main() {
 			"over 4 resource kinds, 8 verbs, namespaced/global, tier-prefixed and bare policy names; every case is non-trivial (three concurrent checks), distinct by (row, repetition); " +
 			"built with -race, every DATA RACE block is a violation",
 		Assumptions: []string{
-			"the fake Authorizer answers from a per-request script found through the request context; delays are time.Sleep perturbations that no oracle reads",
+			"the fake Authorizer answers from a per-request script found through the request context; delays are sleeps that no oracle reads; for half of the requests it gives up with (NoOpinion, ctx.Err()) if its context is cancelled first, as the k8s webhook authorizer does",
 			"the decision table is enumerated completely; goroutine interleavings are sampled (Go scheduler + enforced completion orders), not enumerated",
 			"race freedom is judged by the Go race detector on the executions that happened",
 		},
@@ -310,6 +348,6 @@ func main() {
 			return nTriples * 2
 		},
 		Run:    run,
-		Floors: map[string]int64{"requests": 2700, "authz_calls": 8000, "expected_allowed": 400, "expected_forbidden": 2000, "requests_with_authorizer_error": 2000},
+		Floors: map[string]int64{"requests": 2700, "authz_calls": 8000, "expected_allowed": 400, "expected_forbidden": 2000, "requests_with_authorizer_error": 2000, "cancel_honouring_requests": 1000},
 	})
 }
